@@ -4,7 +4,7 @@ import os
 import random
 
 import lexinc
-from common import build, log, tlc, require_ok, rundir, tlc_counterexample
+from common import build, log, tlc, require_ok, rundir, tlc_counterexample, run_th
 LEVEL = "model_checking"
 
 
@@ -37,20 +37,46 @@ def random_graphs(seed, n):
     return cases
 
 
+def doubling_chain(chk, th):
+    """f0 = one token, f(i) = include f(i-1) twice: the expanded stream has 2^k tokens for k + 1 small files.  Scanning terminates
+    (C15) and compile returns normally (C02) whatever k is - with an error when the stream would not fit; run with the address
+    space limited to 6 GB so that 'does not fit' shows within seconds"""
+    n = 0
+    for k in (10, 16, 40):
+        files = {"f0": "x := 1 ;\n"}
+        for i in range(1, k + 1):
+            files["f%d" % i] = 'include "f%d"\ninclude "f%d"\n' % (i - 1, i - 1)
+        files["m"] = 'include "f%d"\ny := 2\n' % k
+        job = {"i": 0, "files": files, "main": "m", "watch": 600}
+        recs, rc, err = run_th("/bin/bash", ["-c", "ulimit -v 6000000; exec %s compile" % th], [job], timeout=900)
+        got = next((x for x in recs if "ok" in x), None)
+        n += 1
+        size = sum(len(v) for v in files.values())
+        if got is None:
+            chk.violation("c15:doubling:%d" % k, "Theo::compile did not return normally (exit %s%s) on an include graph of %d files (%d bytes) in which "
+                          "every file includes the previous one twice (2^%d tokens after expansion)"
+                          % (rc, ", std::bad_alloc" if "bad_alloc" in err or rc == 70 else "", k + 2, size, k), {"input": job, "stderr": err[-1500:]})
+        elif k <= 16 and not got["ok"]:
+            chk.violation("c15:doubling:reject:%d" % k, "an include graph expanding to 2^%d statements was rejected: %s" % (k, got["errors"][:2]), {"input": job})
+        elif k == 40 and got["ok"]:
+            chk.violation("c15:doubling:accept:%d" % k, "an include graph expanding to 2^40 tokens was reported as compiled correctly", {"input": job})
+    return n
+
+
 def run(chk):
     th = build("plain")
     tha = build("asan")
     inv = "INVARIANT DepthOK ReqsOK RecursiveIff StepBound\n"
     # 1. liveness in the model: scanning terminates on every include graph (weak fairness), small bound
     res = tlc("TheoInclude", "SPECIFICATION Spec\n" + inv + "PROPERTY Terminates\nCHECK_DEADLOCK FALSE\n", chk.pid, "live",
-              env={"INCFILES": 3 if chk.thorough else 2, "INCITEMS": 2, "INCCASES": "/dev/null", "INCKIND": "all"}, timeout=1500, keep_cases=False)
+              env={"INCFILES": 3 if chk.thorough else 2, "INCITEMS": 2, "INCCASES": "/dev/null", "INCKIND": "all", "INCLIMIT": 1048576}, timeout=1500, keep_cases=False)
     if not require_ok(res, "TheoInclude liveness"):
         chk.violation("c15:model:" + res.violated, "TheoInclude: %s violated\n%s" % (res.violated, tlc_counterexample(res)), {"trace": tlc_counterexample(res, 8000)})
     chk.tlc_stats(res)
     # 2. exhaustive enumeration + S->I
     nf, ni = (3, 2)
     res = tlc("TheoInclude", "SPECIFICATION Spec\n" + inv + "CHECK_DEADLOCK FALSE\n", chk.pid, "enum",
-              env={"INCFILES": nf, "INCITEMS": ni, "INCCASES": "/dev/null", "INCKIND": "all"}, timeout=1500, xmx="16g")
+              env={"INCFILES": nf, "INCITEMS": ni, "INCCASES": "/dev/null", "INCKIND": "all", "INCLIMIT": 1048576}, timeout=1500, xmx="16g")
     if not require_ok(res, "TheoInclude enumeration"):
         chk.violation("c15:model:" + res.violated, "TheoInclude: %s violated\n%s" % (res.violated, tlc_counterexample(res)), {"trace": tlc_counterexample(res, 8000)})
     chk.tlc_stats(res)
@@ -59,11 +85,25 @@ def run(chk):
     res.cases = None
     if chk.thorough:
         res4 = tlc("TheoInclude", "SPECIFICATION Spec\n" + inv + "CHECK_DEADLOCK FALSE\n", chk.pid, "enum4",
-                   env={"INCFILES": 4, "INCITEMS": 1, "INCCASES": "/dev/null", "INCKIND": "all"}, timeout=1500, xmx="16g")
+                   env={"INCFILES": 4, "INCITEMS": 1, "INCCASES": "/dev/null", "INCKIND": "all", "INCLIMIT": 1048576}, timeout=1500, xmx="16g")
         require_ok(res4, "TheoInclude 4 files")
         chk.tlc_stats(res4)
         n += lexinc.compare_include(chk, th, res4.cases, "c15:enum4", compile_th=tha, compile_every=20)
         ncases += len(res4.cases)
+    # 2b. the bound on the token stream (THEO_SCAN_MAX_TOKENS): the same enumeration with the bound at 5 tokens, replayed into a harness
+    #     variant compiled with that bound
+    thc = build("smallcap")
+    resl = tlc("TheoInclude", "SPECIFICATION Spec\n" + inv + "CHECK_DEADLOCK FALSE\n", chk.pid, "enumlimit",
+               env={"INCFILES": 2, "INCITEMS": 3, "INCCASES": "/dev/null", "INCKIND": "all", "INCLIMIT": 5}, timeout=1500, xmx="16g")
+    if not require_ok(resl, "TheoInclude bounded stream"):
+        chk.violation("c15:model-limit:" + resl.violated, "TheoInclude (stream bound 5): %s violated" % resl.violated, {"trace": tlc_counterexample(resl, 8000)})
+    chk.tlc_stats(resl)
+    hit = sum(1 for c in resl.cases if any(e["t"] == "TOO_MANY_TOKENS" for e in lexinc._seq(c["errs"])))
+    n += lexinc.compare_include(chk, thc, resl.cases, "c15:limit")
+    chk.add("configurations_with_stream_bound_5", len(resl.cases))
+    chk.add("configurations_reaching_the_stream_bound", hit)
+    ncases += len(resl.cases)
+    resl.cases = None
     # 3. randomly larger graphs: the same machine on given configurations
     d = rundir(chk.pid, "given_in")
     given = random_graphs(chk.seed, 10000 if chk.thorough else 400)
@@ -71,11 +111,12 @@ def run(chk):
     with open(gp, "w") as f:
         json.dump(given, f)
     resg = tlc("TheoInclude", "SPECIFICATION GSpec\nINVARIANT DepthOK ReqsOK StepBound\nPROPERTY Terminates\nCHECK_DEADLOCK FALSE\n", chk.pid, "given",
-               env={"INCFILES": 3, "INCITEMS": 1, "INCCASES": gp, "INCKIND": "all"}, timeout=1500)
+               env={"INCFILES": 3, "INCITEMS": 1, "INCCASES": gp, "INCKIND": "all", "INCLIMIT": 1048576}, timeout=1500)
     if not require_ok(resg, "TheoInclude given"):
         chk.violation("c15:model-given:" + resg.violated, "TheoInclude: %s violated on a random graph" % resg.violated, {"trace": tlc_counterexample(resg, 8000)})
     chk.tlc_stats(resg)
     n += lexinc.compare_include(chk, tha, resg.cases, "c15:random", compile_th=tha, compile_every=4)
+    chk.add("doubling_include_chains", doubling_chain(chk, th))
     chk.cov["traces_validated_against_impl"] = n
     chk.cov["include_graphs_exhaustive"] = ncases
     chk.cov["include_graphs_random"] = len(resg.cases)
